@@ -406,7 +406,15 @@ fn looking_variant(table: usize, v: usize) -> TwcSpec {
 /// `topology`: 0 = A,B -> L ; 1 = A (two selections, adjacent),B -> L ; 2 = A,B,A (same table, not adjacent) -> L ;
 /// 3 = A -> B -> L (B looked and looking, two CTLs) ; 4 = A + extra values -> L ; 5 = A,B,C -> L (4 tables) ;
 /// 6 = A (three selections, adjacent: two helper columns at degree 3),B -> L ; 7 = T,B -> T (a table looking into itself, width 1)
+pub const TOPOLOGY: [&str; 8] = ["AB_L", "AAB_L", "ABA_L-nonadjacent-repeat", "A_B_L-chain", "Ax_L-extra-values", "ABC_L", "AAAB_L", "TB_T-looking-into-itself"];
+
 pub fn build_system(r: &mut Rng, topology: usize, degree: usize, lg: &[usize]) -> System {
+    let mut s = build_system_inner(r, topology, degree, lg);
+    s.name = format!("ctl-{}-d{}", TOPOLOGY[topology], degree);
+    s
+}
+
+fn build_system_inner(r: &mut Rng, topology: usize, degree: usize, lg: &[usize]) -> System {
     let binf = |c: usize| Constraint { kind: Kind::Always, expr: mul(Expr::Local(c), sub(Expr::Local(c), Expr::Const(1))) };
     let rnd_table = |r: &mut Rng, n: usize, p_on: u64| -> Vec<Vec<F>> {
         (0..n).map(|_| vec![fe(r.below(50)), fe(r.below(50)), fe((r.below(4) < p_on) as u64), fe((r.below(4) < p_on) as u64)]).collect()
@@ -523,7 +531,7 @@ fn system_cases(w: &mut dyn Write, r: &mut Rng, sys: &mut System, cname: &str, c
     let (po, vo, proofs) = pv_system(sys, cfg, None);
     writeln!(w, "c10 {fam} honest = {} # holds={} prover={po} verify={vo}", accepted_iff(holds, &vo) as u8, holds as u8).unwrap();
     cnt += 2;
-    if !holds { return cnt; }
+    if !holds || vo != "ok" { return cnt; }
     // single-value corruptions: a filtered / unfiltered cell of every table, a filter flip, an extra value
     for ti in 0..sys.tables.len() {
         let nrows = sys.tables[ti].rows.len();
@@ -634,6 +642,230 @@ fn synthetic_ctl_sums(w: &mut dyn Write, r: &mut Rng, count: usize) -> usize {
     cnt
 }
 
+
+// ------------------------------------------------------------------------------------------
+// correspondence lines for Model/StarkLookup.v
+
+fn enc_lookup(l: &LookupSpec, v: &mut Vec<u64>) {
+    v.push(l.columns.len() as u64);
+    for (c, f) in l.columns.iter().zip(&l.filters) { enc_col(c, v); enc_filter(f, v) }
+    enc_col(&l.table, v);
+    enc_col(&l.freq, v);
+}
+fn cols_out(cols: Vec<PolynomialValues<F>>) -> String {
+    join(&cols.iter().flat_map(|c| c.values.iter().map(|x| x.to_canonical_u64())).collect::<Vec<_>>())
+}
+
+/// `lkcols challenge degree <lookup> <rows> = all helper columns then Z, concatenated`
+fn lkcols_line(w: &mut dyn Write, l: &LookupSpec, rows: &[Vec<F>], challenge: F, degree: usize) {
+    let mut v = vec![challenge.to_canonical_u64(), degree as u64];
+    enc_lookup(l, &mut v);
+    enc_rows(rows, &mut v);
+    let lookup = starky::lookup::Lookup {
+        columns: l.columns.iter().map(|c| c.to_column()).collect(),
+        table_column: l.table.to_column(),
+        frequencies_column: l.freq.to_column(),
+        filter_columns: l.filters.iter().map(|f| f.to_filter()).collect(),
+    };
+    let trace = to_poly_values(rows, rows[0].len());
+    let res = catch_unwind(AssertUnwindSafe(|| starky::verif_hooks::lookup_helper_columns(&lookup, &trace, challenge, degree)));
+    writeln!(w, "lkcols {} = {}", join(&v), match res { Ok(c) => cols_out(c), Err(_) => "panic".into() }).unwrap();
+}
+
+/// `psums beta gamma degree <list of (columns, filter)> <rows> = helper columns then Z (or Z alone)`
+fn psums_line(w: &mut dyn Write, twcs: &[&TwcSpec], rows: &[Vec<F>], beta: F, gamma: F, degree: usize) {
+    let mut v = vec![beta.to_canonical_u64(), gamma.to_canonical_u64(), degree as u64, twcs.len() as u64];
+    for t in twcs {
+        v.push(t.cols.len() as u64);
+        for c in &t.cols { enc_col(c, &mut v) }
+        enc_filter(&t.filter, &mut v);
+    }
+    enc_rows(rows, &mut v);
+    let cols: Vec<Vec<starky::lookup::Column<F>>> = twcs.iter().map(|t| t.cols.iter().map(|c| c.to_column()).collect()).collect();
+    let fs: Vec<starky::lookup::Filter<F>> = twcs.iter().map(|t| t.filter.to_filter()).collect();
+    let cfs: Vec<(&[starky::lookup::Column<F>], &starky::lookup::Filter<F>)> = cols.iter().zip(&fs).map(|(c, f)| (&c[..], f)).collect();
+    let trace = to_poly_values(rows, rows[0].len());
+    let ch = starky::lookup::GrandProductChallenge { beta, gamma };
+    let res = catch_unwind(AssertUnwindSafe(|| starky::verif_hooks::ctl_partial_sums(&trace, &cfs, ch, degree)));
+    writeln!(w, "psums {} = {}", join(&v), match res { Ok(c) => cols_out(c), Err(_) => "panic".into() }).unwrap();
+}
+
+fn enc_consumer(alphas: &[FE], zl: FE, l0: FE, ll: FE, v: &mut Vec<u64>) {
+    v.push(alphas.len() as u64);
+    for a in alphas { v.extend(ext2(*a)) }
+    v.extend(ext2(zl)); v.extend(ext2(l0)); v.extend(ext2(ll));
+}
+
+/// `lkeval degree <consumer> <lookups> <challenges> ncols local.. next.. naux auxl.. auxn.. = accumulators`
+fn lkeval_line(w: &mut dyn Write, r: &mut Rng, b: &Built, nch: usize, aux_short: usize) {
+    let drv = driver(b.spec.clone());
+    let na = r.below(3) as usize + 1;
+    let alphas: Vec<FE> = (0..na).map(|_| rfe(r)).collect();
+    let (zl, l0, ll) = (rfe(r), rfe(r), rfe(r));
+    let nc = b.spec.ncols;
+    let lv: Vec<FE> = (0..nc).map(|_| rfe(r)).collect();
+    let nv: Vec<FE> = (0..nc).map(|_| rfe(r)).collect();
+    let chs: Vec<F> = (0..nch).map(|_| rf(r)).collect();
+    let naux: usize = b.spec.lookups.iter().map(|l| (l.columns.len().div_ceil(b.spec.degree.checked_sub(1).unwrap_or(1).max(1)) + 1) * nch).sum::<usize>().saturating_sub(aux_short);
+    let auxl: Vec<FE> = (0..naux).map(|_| rfe(r)).collect();
+    let auxn: Vec<FE> = (0..naux).map(|_| rfe(r)).collect();
+    let mut v = vec![b.spec.degree as u64];
+    enc_consumer(&alphas, zl, l0, ll, &mut v);
+    v.push(b.spec.lookups.len() as u64);
+    for l in &b.spec.lookups { enc_lookup(l, &mut v) }
+    v.push(nch as u64);
+    v.extend(chs.iter().map(|x| x.to_canonical_u64()));
+    v.push(nc as u64);
+    for x in lv.iter().chain(&nv) { v.extend(ext2(*x)) }
+    v.push(naux as u64);
+    for x in auxl.iter().chain(&auxn) { v.extend(ext2(*x)) }
+    let res = (drv.lkeval)(&alphas, zl, l0, ll, &lv, &nv, &auxl, &auxn, &chs);
+    writeln!(w, "lkeval {} = {}", join(&v), match res { Some(a) => join(&a.into_iter().flat_map(ext2).collect::<Vec<_>>()), None => "panic".into() }).unwrap();
+}
+
+/// `ctleval degree <consumer> <helpers> local_z next_z beta gamma <column lists> <filters> 4 local.. next.. = accumulators`
+fn ctleval_line(w: &mut dyn Write, r: &mut Rng, twcs: &[TwcSpec], nhelpers: usize, degree: usize) {
+    use plonky2::field::extension::FieldExtension;
+    use starky::evaluation_frame::{StarkEvaluationFrame, StarkFrame};
+    let na = r.below(3) as usize + 1;
+    let alphas: Vec<FE> = (0..na).map(|_| rfe(r)).collect();
+    let (zl, l0, ll) = (rfe(r), rfe(r), rfe(r));
+    let hs: Vec<FE> = (0..nhelpers).map(|_| rfe(r)).collect();
+    let (lz, nz) = (rfe(r), rfe(r));
+    let (beta, gamma) = (rf(r), rf(r));
+    let lv: Vec<FE> = (0..4).map(|_| rfe(r)).collect();
+    let nv: Vec<FE> = (0..4).map(|_| rfe(r)).collect();
+    let mut v = vec![degree as u64];
+    enc_consumer(&alphas, zl, l0, ll, &mut v);
+    v.push(hs.len() as u64);
+    for x in &hs { v.extend(ext2(*x)) }
+    v.extend(ext2(lz)); v.extend(ext2(nz));
+    v.push(beta.to_canonical_u64()); v.push(gamma.to_canonical_u64());
+    v.push(twcs.len() as u64);
+    for t in twcs { v.push(t.cols.len() as u64); for c in &t.cols { enc_col(c, &mut v) } }
+    v.push(twcs.len() as u64);
+    for t in twcs { enc_filter(&t.filter, &mut v) }
+    v.push(4);
+    for x in lv.iter().chain(&nv) { v.extend(ext2(*x)) }
+    let cols: Vec<Vec<starky::lookup::Column<F>>> = twcs.iter().map(|t| t.cols.iter().map(|c| c.to_column()).collect()).collect();
+    let res = catch_unwind(AssertUnwindSafe(|| {
+        let vars = StarkFrame::<FE, FE, 4, 0>::from_values(&lv, &nv, &[]);
+        let cv = starky::verif_hooks::ctl_check_vars::<F, D>(hs.clone(), lz, nz, starky::lookup::GrandProductChallenge { beta, gamma },
+                     cols.iter().map(|c| &c[..]).collect(), twcs.iter().map(|t| t.filter.to_filter()).collect());
+        let mut consumer = starky::constraint_consumer::ConstraintConsumer::<FE>::new(alphas.clone(), zl, l0, ll);
+        starky::verif_hooks::eval_ctl_checks_ext::<F, S4, D>(&vars, &[cv], &mut consumer, degree);
+        consumer.accumulators()
+    }));
+    let _ = <FE as FieldExtension<D>>::from_basefield;
+    writeln!(w, "ctleval {} = {}", join(&v), match res { Ok(a) => join(&a.into_iter().flat_map(ext2).collect::<Vec<_>>()), Err(_) => "panic".into() }).unwrap();
+}
+
+/// `ctlsum nch <per table openings> <per CTL: looking tables, looked table, has_extra, [extra]> = 1|0|panic`
+fn ctlsum_line(w: &mut dyn Write, r: &mut Rng, k: usize) {
+    let nch = 1 + r.below(3) as usize;
+    let cfg = StarkConfig::new(10, nch, stark_configs()[0].1.fri_config.clone());
+    let nctl = 1 + r.below(2) as usize;
+    // tables 0..3; CTL i: looking tables with repetitions (adjacent or not), looked table
+    let mut decls: Vec<(Vec<usize>, usize, Option<Vec<F>>)> = vec![];
+    for _ in 0..nctl {
+        let nl = 1 + r.below(3) as usize;
+        let looking: Vec<usize> = (0..nl).map(|_| r.below(2) as usize).collect();
+        let looked = 2;
+        let extra = if r.below(3) == 0 { Some((0..(if k % 11 == 10 { nch - 1 } else { nch })).map(|_| rf(r)).collect()) } else { None };
+        decls.push((looking, looked, extra));
+    }
+    // consistent openings, then optionally perturbed / truncated
+    let mut zs: Vec<Vec<F>> = vec![vec![], vec![], vec![]];
+    for (looking, looked, extra) in &decls {
+        let mut seen: Vec<usize> = vec![];
+        for &t in looking { if !seen.contains(&t) { seen.push(t) } }
+        for c in 0..nch {
+            let mut s = F::ZERO;
+            for &t in &seen { let z = rf(r); zs[t].push(z); s += z }
+            if let Some(e) = extra { if let Some(x) = e.get(c) { s += *x } }
+            zs[*looked].push(s);
+        }
+    }
+    match k % 7 {
+        1 => { let t = r.below(3) as usize; if !zs[t].is_empty() { let i = r.below(zs[t].len() as u64) as usize; zs[t][i] += F::ONE } }
+        2 => { let t = r.below(3) as usize; zs[t].pop(); }
+        3 => { let t = r.below(3) as usize; zs[t].push(rf(r)); }
+        _ => {}
+    }
+    let mut v = vec![nch as u64, 3];
+    for z in &zs { v.push(z.len() as u64); v.extend(z.iter().map(|x| x.to_canonical_u64())) }
+    v.push(decls.len() as u64);
+    for (looking, looked, extra) in &decls {
+        v.push(looking.len() as u64);
+        v.extend(looking.iter().map(|&t| t as u64));
+        v.push(*looked as u64);
+        match extra { Some(e) => { v.push(1); v.push(e.len() as u64); v.extend(e.iter().map(|x| x.to_canonical_u64())) } None => v.push(0) }
+    }
+    let twc = |t: usize| looking_variant(t, 0).to_twc();
+    let ctls: Vec<CrossTableLookup<F>> = decls.iter().map(|(l, k, _)| CrossTableLookup::new(l.iter().map(|&t| twc(t)).collect(), twc(*k))).collect();
+    let mut extra: HashMap<usize, Vec<F>> = HashMap::new();
+    for (i, (_, _, e)) in decls.iter().enumerate() { if let Some(e) = e { extra.insert(i, e.clone()); } }
+    let o = verdict(|| verify_cross_table_lookups::<F, D, 3>(&ctls, [zs[0].clone(), zs[1].clone(), zs[2].clone()], &extra, &cfg));
+    writeln!(w, "ctlsum {} = {}", join(&v), if o == "ok" { "1" } else if o.starts_with("err") { "0" } else { "panic" }).unwrap();
+}
+
+fn correspondence_lines(w: &mut dyn Write, r: &mut Rng, thorough: bool) -> usize {
+    let mut cnt = 0;
+    let reps = if thorough { 4 } else { 1 };
+    for _ in 0..reps {
+        for k in 1..=4usize {
+            for degree in [0usize, 1, 2, 3, 4] {
+                for fancy in [false, true] {
+                    let n = 1usize << (2 + r.below(3));
+                    let (b, _) = build_perm_info(r, n.max(4), k, degree.max(2), fancy);
+                    let l = &b.spec.lookups[0];
+                    let ch = rf(r);
+                    lkcols_line(w, l, &b.rows, ch, degree);
+                    cnt += 1;
+                    if degree == 2 {
+                        // a challenge that makes table + challenge / looking + challenge zero: batch inverse of 0
+                        let t0 = l.table.eval_rows(&b.rows, 1);
+                        lkcols_line(w, l, &b.rows, -t0, degree);
+                        let mut rows = b.rows.clone();
+                        rows[0][l.freq.lin[0].0] += F::ONE;        // dishonest frequencies: the columns are still computed
+                        let ch = rf(r);
+                        lkcols_line(w, l, &rows, ch, degree);
+                        cnt += 2;
+                    }
+                    if degree >= 2 && degree <= 3 {
+                        let spec = Arc::new(FamSpec { name: "x".into(), degree, ncols: b.spec.ncols, npi: b.spec.npi, cons: vec![], lookups: b.spec.lookups.clone(), ctl: false });
+                        let bb = Built { spec, rows: vec![], pis: vec![], cols: vec![] };
+                        let nch = 1 + r.below(2) as usize;
+                        lkeval_line(w, r, &bb, nch, 0);
+                        cnt += 1;
+                        if k == 2 { lkeval_line(w, r, &bb, 2, 1); cnt += 1; }     // auxiliary openings one short: slice panic
+                    }
+                }
+            }
+        }
+        // CTL partial sums and checks
+        for degree in [2usize, 3, 4] {
+            for sel in [vec![0usize], vec![0, 4], vec![0, 4, 3], vec![2], vec![1, 3], vec![0, 1, 2, 3]] {
+                let n = 1usize << (2 + r.below(3));
+                let rows: Vec<Vec<F>> = (0..n).map(|_| vec![fe(r.below(50)), fe(r.below(50)), fe(r.below(2)), fe(r.below(2))]).collect();
+                let twcs: Vec<TwcSpec> = sel.iter().map(|&v| looking_variant(0, v)).collect();
+                let (be, ga) = (rf(r), rf(r));
+                psums_line(w, &twcs.iter().collect::<Vec<_>>(), &rows, be, ga, degree);
+                cnt += 1;
+                let nh_honest = if twcs.len() > 1 { twcs.len().div_ceil(degree - 1) } else { 0 };
+                for nh in [nh_honest, 0, 1] {
+                    ctleval_line(w, r, &twcs, nh, degree);
+                    cnt += 1;
+                }
+            }
+        }
+        ctleval_line(w, r, &[], 0, 3);
+        cnt += 1;
+    }
+    for k in 0..(if thorough { 400 } else { 90 }) { ctlsum_line(w, r, k); cnt += 1; }
+    cnt
+}
+
 /// verify_cross_table_lookups is public and takes the first-row openings as plain vectors
 fn malformed_ctl_sums(w: &mut dyn Write) -> usize {
     let cfg = StarkConfig::new(10, 2, stark_configs()[0].1.fri_config.clone());
@@ -661,6 +893,7 @@ pub fn run(seed: u64, tier: &str, w: &mut dyn Write) -> usize {
     let thorough = tier == "thorough";
     let cfgs = stark_configs();
     let mut cnt = 0;
+    cnt += correspondence_lines(w, &mut r, thorough);
     // ---- single-table lookups
     let mut j = 0usize;
     for k in 1..=4usize {
